@@ -204,6 +204,23 @@ EXTRA10 = {
 }
 for _pid, _t in EXTRA10.items():
     EXTRA[_pid] = EXTRA.get(_pid, '') + ' ' + _t
+EXTRA11 = {
+ 'C02': 'Embedded pointers hidden by selector rules (diamond, shadowed) and pointer-then-value embedding: every derivation behind them is refused.',
+ 'C04': 'Composed optics (BiMapX, ForShapeN, Join, Getter, Setter) over foci behind hidden embedded pointers are refused.',
+ 'C05': 'FMap arrows that keep what they bound to the context of an earlier call (AfterFunc, a helper stage). Decorators count their calls.',
+ 'C07': 'The library\'s own StdErr as the error reader of Try stages at capacities 0, 1, 3.',
+ 'C08': 'pipe.New under contexts that can never be cancelled, closed by the sender with a backlog.',
+ 'C09': 'Counting decorators at every worker count including one.',
+ 'C13': 'The output closes at the instant of the last delivery once the input is closed; idle periods of 65 and 1000 intervals.',
+ 'C14': 'Flat-map functions whose results are joins of their own.',
+ 'C15': 'Flat-map functions whose results are joins of their own (seq.Join, pair.Join, ToSeq, FromSeq inside each other).',
+ 'C17': 'ContraMap over interface, pointer, func and map types with nil arguments and total projections.',
+ 'C18': 'A trait that reads the list it orders; validated table of clock seeds with a height draw below e^-22.',
+ 'C19': 'Element types: any (slice-valued elements included), 16 KiB arrays, struct{}, strings, pointers, slices.',
+ 'C20': 'Zero-size argument, intermediate and result types; the composed function is called repeatedly.',
+}
+for _pid, _t in EXTRA11.items():
+    EXTRA[_pid] = EXTRA.get(_pid, '') + ' ' + _t
 for _pid, _t in EXTRA.items():
     TEXT[_pid]['text'] += ' ' + _t
 TEXT['C09']['note'] = 'Fail-fast (Lift) mode is exercised at scale only for closure, no-leak and "errors only for failing elements" (which workers fail first is not determined); the multiset verdict is for Pure and Try modes. Distinct output orders are counted per child process.'
